@@ -432,7 +432,7 @@ Definition outa_plane (v : vec) (nax s c : F) (normal : vec) (nn : F) (ov : vec)
    SAcyc: the non-ring branch of |sign| = 1:  substructure(yield_bfs(a1, a2)) is rotated about a1 by `rotation`;
           sel = the atoms yield_bfs(a1, a2) gives (graph search: C15), (s, c) = sin/cos of sign * (90 or 60 degrees).
    SShift: every other branch is a sequence of translations of atom selections by constant vectors
-          (ring branch: sign * (0, 0.5, 0.75 | 1.5);  Bold / Hash: (sign / 2) * (0, 0, 1)). *)
+          (ring branch: (0, 0.5, sign * 0.75 | 1.5);  Bold / Hash: (sign / 2) * (0, 0, 1)). *)
 Inductive step :=
 | SAcyc (sel : list nat) (i1 i2 : nat) (s c : F) (normal : vec) (nn : F) (ov : vec) (nax : F)
 | SShift (moves : list (list nat * vec)).
@@ -462,6 +462,12 @@ Definition vertical (d : vec) : Prop := let '(x, y, _) := d in x = 0 /\ y = 0.
 
 (* the moves of the code's translation branches *)
 Definition ring_moves (sgn : F) (a1 a2 : nat) (side1 side2 : list (list nat)) : list (list nat * vec) :=
+  let d1 : vec := (0, 1 / fofZ o 2, sgn * (fofZ o 3 / fofZ o 4)) in
+  let d2 : vec := (0, 1 / fofZ o 2, sgn * (fofZ o 3 / fofZ o 2)) in
+  ([a1], d1) :: ([a2], d2) :: map (fun l => (l, d1)) side1 ++ map (fun l => (l, d2)) side2.
+(* before the repair (fix: commit in /repo) the whole displacement, its in-plane y part included, was multiplied
+   by the sign: kept to state what was wrong (Props/C13.v, C13_ring_branch_refuted_before_repair) *)
+Definition ring_moves_before_repair (sgn : F) (a1 a2 : nat) (side1 side2 : list (list nat)) : list (list nat * vec) :=
   let d1 := vscale o sgn (0, 1 / fofZ o 2, fofZ o 3 / fofZ o 4) in
   let d2 := vscale o sgn (0, 1 / fofZ o 2, fofZ o 3 / fofZ o 2) in
   ([a1], d1) :: ([a2], d2) :: map (fun l => (l, d1)) side1 ++ map (fun l => (l, d2)) side2.
